@@ -27,3 +27,30 @@ Lemma ex_effective :
   effective_dollar (mkConds 0 0) = 999999999999 /\ effective_dollar (mkConds 0 1000000000000) = 999999999999 /\
   effective_dollar (mkConds 0 5) = 5 /\ effective_dollar (mkConds 0 (-1)) = -1.
 Proof. vm_compute. repeat split; reflexivity. Qed.
+
+(* non-vacuity of C09_maximal: with MaxLines 13 (= the size of the larger merged file) and the
+   default dollar cap no limit binds on the example, and the result is the plain conversion *)
+Lemma ex_no_limit_binds :
+  Forall (fun o => fits (mkConds 13 0) (effective_dollar (mkConds 13 0)) o /\ ofile_nonneg o) (build_state ex_files).
+Proof.
+  apply Forall_forall. intros o Ho. vm_compute in Ho.
+  destruct Ho as [<-|[<-|[]]]; (split; [split; intros _; vm_compute; discriminate | repeat constructor; vm_compute; discriminate]).
+Qed.
+
+Lemma ex_maximal_shape :
+  shape (merge_files ex_files (mkConds 13 0)) = [[(1, [1; 2; 4]%N); (2, [3]%N)]; [(3, [5]%N)]]
+  /\ merge_files ex_files (mkConds 13 0) = plain (build_state ex_files).
+Proof. split; [vm_compute; reflexivity | apply merge_maximal, ex_no_limit_binds]. Qed.
+
+(* ... and with MaxLines 12 the hypothesis fails and the output differs from the plain conversion *)
+Lemma ex_limit_binds_12 : merge_files ex_files (mkConds 12 0) <> plain (build_state ex_files).
+Proof. vm_compute. discriminate. Qed.
+
+(* non-vacuity of C09_valid_partial: the section hypothesis is satisfiable *)
+Lemma ex_valid_instance fs c :
+  forall g rb, In g (merge_files fs c) -> In rb (rf_batches g) -> rb_entries rb <> [] /\ tasc (rb_entries rb).
+Proof.
+  apply (merge_valid_relative (fun _ _ => True) (fun _ es => es <> [] /\ tasc es)).
+  - intros h es H1 H2 _. now split.
+  - intros; exact I.
+Qed.
